@@ -94,6 +94,19 @@ fn main() {
     match args.cmd.as_str() {
         "ipm" => cmd_ipm(&args),
         "ipm-replay" => cmd_ipm_replay(&args),
+        "sink-child" => {
+            // (used by `print`: one verbose solve into the sink or to stdout; this process prints nothing of its own)
+            let mut rng = StdRng::seed_from_u64(7);
+            let p = gen_family(&mut rng, "feasible", 4);
+            let mut st = p.settings();
+            st.verbose = true;
+            let (P, A) = (p.P.to_clarabel(), p.A.to_clarabel());
+            let mut sv = clarabel::solver::DefaultSolver::new(&P, &p.q, &A, &p.b, &p.clarabel_cones(), st);
+            use clarabel::io::ConfigurablePrintTarget;
+            use clarabel::solver::IPSolver;
+            if args.get("mode", "sink") == "sink" { sv.print_to_sink(); } else { sv.print_to_stdout(); }
+            sv.solve();
+        }
         "budget" => cmd_budget(&args),
         "shapes" => cmd_shapes(&args),
         "dist" => cmd_dist(&args),
@@ -592,11 +605,22 @@ fn cmd_print(args: &Args) {
                 if let problem::ConeSpec::Nonneg(k) = c {
                     if *k > 1 { p.b[off] = 1e30; }
                 }
+                // (an entry at or above the bound in a second-order cone row is capped, never removed, and not counted)
+                if let problem::ConeSpec::Soc(k) = c { if *k > 1 && rng.gen::<f64>() < 0.3 { p.b[off] = 1e30; } }
                 off += c.numel();
             }
         }
         lines.push(rec_more::print_case(run, &p, &dir));
         cases.push(json!({"run": run, "problem": p}));
+    }
+    // the sink target and the process's real standard output: a child process solves verbosely into the sink (nothing may
+    // reach its stdout) and then, as a control, to stdout (the log must arrive)
+    for mode in ["sink", "stdout"] {
+        let out = std::process::Command::new(std::env::current_exe().unwrap()).arg("sink-child").arg("--mode").arg(mode).output();
+        match out {
+            Ok(o) => lines.push(json!({"ev": "SinkChild", "run": count, "mode": mode, "ok": o.status.success(), "stdout_len": o.stdout.len()})),
+            Err(_) => lines.push(json!({"ev": "SinkChild", "run": count, "mode": mode, "ok": false, "stdout_len": 0})),
+        }
     }
     write_lines(&args.get("out", "print.ndjson"), &lines);
     write_lines(&args.get("cases", "print.cases.ndjson"), &cases);
